@@ -3,7 +3,7 @@ import gen
 import translate_ops
 
 PID = 'C06'
-RULE = ("for each of the 16 named operations and the two ufunc_* forms: 2-4 maps of one numeric dtype (every dtype, "
+RULE = ("for each of the 16 named operations and the two ufunc_* forms: 2-4 maps (and a few histories with 255-300 tiny maps) of one numeric dtype (every dtype, "
         "default / zero / custom sentinels, possibly different per map) or wide masks of one width, filled with "
         "values of both signs and zero on coverage sets that are disjoint / nested / partially overlapping and grown "
         "in different orders, are combined; the result's dense values, valid set, dtype, sentinel and layout are "
@@ -38,9 +38,38 @@ def _pow2_divisors(rng, ln):
     return ' '.join(toks)
 
 
+def many_maps_history(rng):
+    """2..N with N LARGE: 255-300 tiny maps sharing a few pixels (a per-pixel input counter that is too narrow
+    wraps at 256: seeded change C06d)."""
+    n = rng.choice([255, 256, 257, 300])
+    name = rng.choice(['sum_intersection', 'or_intersection', 'max_intersection', 'min_intersection',
+                       'xor_intersection', 'sum_union', 'and_intersection'])
+    dt = rng.choice(['i8', 'i4', 'i8'])
+    sent = rng.choice(['default', '0'])
+    cfgs = [gen.MapCfg('m%d' % i, 'plain', 0, rng.choice([0, 1]) if i == 0 else 0, dtype=dt, sentinel=sent)
+            for i in range(n)]
+    for c in cfgs:
+        c.spord = cfgs[0].spord
+    c0 = cfgs[0]
+    common = rng.sample(range(c0.npix), 3)
+    h = [c.line() for c in cfgs]
+    for i, c in enumerate(cfgs):
+        pix = list(common)
+        if rng.random() < 0.3:
+            pix.append(rng.randrange(c0.npix))
+        if i == n - 1 and rng.random() < 0.5:
+            pix = pix[1:]                       # one common pixel missing from the LAST map only
+        pix = sorted(set(pix))
+        h.append('upd %s op=replace pix=%s vals=%s' % (c.name, ','.join(map(str, pix)),
+                                                        ','.join(str(rng.randint(-3, 3)) for _ in pix)))
+    h.append('mop r=res name=%s maps=%s' % (name, ','.join(c.name for c in cfgs)))
+    h += ['info res', 'state res', 'vals res', 'valid res', 'state m0', 'state m%d' % (n - 1)]
+    return h
+
+
 def histories(rng, tier):
     n = 500 if tier == 'quick' else 3000
-    out = []
+    out = [many_maps_history(rng) for _ in range(3 if tier == 'quick' else 12)]
     for _ in range(n):
         name = rng.choice(NAMES)
         kinds = ['int', 'int', 'wide'] if name in INT_ONLY else ['int', 'flt', 'flt', 'wide']
